@@ -64,7 +64,7 @@ type model struct {
 
 // New is the xstate factory.
 func New(params string) (xstate.Model, error) {
-	runtime.GOMAXPROCS(1) // see props/c11: cache builds race with themselves; scheduling is not this property's subject
+	runtime.GOMAXPROCS(1) // as in props/c11: executions must be a deterministic function of the action sequence
 	var p Params
 	if err := json.Unmarshal([]byte(params), &p); err != nil {
 		return nil, err
